@@ -361,9 +361,12 @@ for _v in ("pawn_move", "pawn_capture", "castling"):
           "for all well-formed boards (side %s) and ALL field values of the %s SAN form, with Move::validate imported by contract: no panic (square arithmetic guarded); Ok(m) => m is legal by the rules and is the move written (pawn to the written destination from the written / same file with the written promotion, resp. a castling)" % (_c, _v.replace("_", " ")),
           assumes=ISLEGAL + ["C06/well-formed", "C01/validate-glue"], timeout=2400, mem_gb=32, mem_est=8)
 for _v, _d in (("castling", "O-O / O-O-O"), ("pawn_move", "destination [=promotion]"), ("pawn_capture", "file x destination [=promotion]"), ("piece_move", "piece letter [file][rank][x] destination")):
-    K("C09/text/%s" % _v.replace("_", "-"), ["C09", "C12"], "moves::san::verif_kani_b::c09_text_%s" % _v, ["<san::Move as Display>::fmt", "san::Data::do_fmt", "san::Move::do_fmt", "<san::Move as FromStr>::from_str", "<san::Data as FromStr>::from_str"],
-      "for every SAN value of this variant that from_move can produce (all field values x check marks none / + / #): the text is the standard algebraic notation (%s, then + or #) and parsing it gives the value back (hence distinct values get distinct texts)" % _d,
+    K("C09/text-fmt/%s" % _v.replace("_", "-"), ["C09"], "moves::san::verif_kani_b::c09_fmt_%s" % _v, ["<san::Move as Display>::fmt", "san::Data::do_fmt", "san::Move::do_fmt"],
+      "for every SAN value of this variant that from_move can produce (all field values x check marks none / + / #): the text is the standard algebraic notation (%s, then + or #)" % _d,
       timeout=3000, mem_gb=24, mem_est=8)
+    K("C09/text/%s" % _v.replace("_", "-"), ["C09", "C12"], "moves::san::verif_kani_b::c09_text_%s" % _v, ["<san::Move as Display>::fmt", "san::Data::do_fmt", "san::Move::do_fmt", "<san::Move as FromStr>::from_str", "<san::Data as FromStr>::from_str"],
+      "the same, and parsing the text gives the value back (hence distinct values get distinct texts)",
+      timeout=5400, mem_gb=24, mem_est=8, tier="thorough")
 K("C12/san/from-str-6", ["C12", "C09", "C02"], "moves::san::verif_kani_b::c12_san_from_str_total_len6", ["<san::Move as FromStr>::from_str", "<san::Data as FromStr>::from_str"],
   "for all UTF-8 strings of <= 6 bytes: SAN parsing returns a value or an error, never panics", bounded="strings of <= 6 bytes", assumes=["C12/utf8-predicate"], timeout=2400, mem_gb=24, mem_est=8)
 K("C12/utf8-predicate", ["C12"], "moves::san::verif_kani_b::c12_utf8_predicate_agrees_with_std", [],
